@@ -31,6 +31,7 @@ import XotModel.Lemmas.RepairDoc
 import XotModel.Lemmas.RepairFuel
 import XotModel.Lemmas.RepairKeepTop
 import XotModel.Lemmas.RepairValid
+import XotModel.Lemmas.SerResolveTop
 
 namespace XotModel.Props
 open XotModel
@@ -834,6 +835,77 @@ example : StructValid (.node .document [.node (.element 0) []]) ∧
       Value.isLeafKind, Value.isElement, Value.isDocument, Value.isNormal, Value.category, Tree.value]
 
 end Repair
+
+/-! ## Names resolve in the token TEXTS (first sentence, one step closer to the bytes)
+
+`SerResolve.resolveGo` is an independent XML-Namespaces resolver over the token stream of
+`Xot::tokens` (Lemmas/SerResolve; the Lean counterpart of the `ser` suite's oracle): of every token it
+is told the kind and the TEXT.  It reads `xmlns="…"` / `xmlns:p="…"` declarations back out of the
+texts (value unescaped), keeps them per open start tag, splits qualified names at the first colon
+and resolves the prefix string in the declarations read so far (`xml` reserved; unprefixed element
+→ default namespace; unprefixed attribute → none).  `SerResolve.expectedGo` lists, for the same
+run, the expanded names of the nodes as strings through the interning tables. -/
+
+section Resolve
+open XotModel.SerResolve
+
+/-- FIRST SENTENCE, at the level of token texts: whenever the run succeeds, the resolver's answers —
+    for every start-tag name, every attribute name and every written end-tag name, in order — are the
+    expanded names `(namespace URI, local name)` of the nodes.  For every tree whose elements declare
+    no prefix twice, declare registered prefixes only and do not rebind `xml` (`DeclsOkBelow`;
+    likewise the bindings in scope at the start node), a start node that is an element or has only
+    `xml` bindings in scope (a document node: nothing else could be declared in its output), any
+    parameters, any escaping function that the unescaper inverts, interning tables with pairwise
+    different prefix strings, the built-in entries, and no `:` / `=` in prefixes and local names. -/
+theorem C10_names_resolve_in_tokens (esc : Escapers) (env : Env) (pr : TokenParams) (t : Tree)
+    (unesc : Str → Str) (henv : EnvStrings env) (hue : ∀ u, unesc (esc.attr u) = u) (start : Path)
+    (n : Tree) (inScope : List (Nat × Nat)) (hat : t.at? start = some n)
+    (hs : namespacesInScope t start = some inScope) (hu : UniqueBelow n) (hdk : DeclsOkBelow env n)
+    (hin : DeclsOk env inScope) (hstart : n.value.isElement = true ∨ OnlyXmlInScope inScope)
+    (toks : List (Path × Output × OutputToken)) (hr : tokensWith esc env pr t start = .ok toks) :
+    resolveGo unesc [] none (view toks) = expectedGo env none (evs toks) := by
+  apply tokens_resolve esc env pr t unesc henv hue start n inScope hat hs hu hdk hin hstart
+  unfold tokensWith at hr
+  cases h : renderAllWith esc env pr t (initStack t start) (genOutputs t start) with
+  | ok l => rw [h] at hr; exact hr
+  | err e => rw [h] at hr; cases hr
+  | panic => rw [h] at hr; cases hr
+
+/-- The same for the crate's own escaping (`serialize_attribute`), read back with the crate's
+    `parse_attribute`. -/
+theorem C10_names_resolve_in_tokens_xml (env : Env) (pr : TokenParams) (t : Tree)
+    (henv : EnvStrings env) (start : Path)
+    (n : Tree) (inScope : List (Nat × Nat)) (hat : t.at? start = some n)
+    (hs : namespacesInScope t start = some inScope) (hu : UniqueBelow n) (hdk : DeclsOkBelow env n)
+    (hin : DeclsOk env inScope) (hstart : n.value.isElement = true ∨ OnlyXmlInScope inScope)
+    (toks : List (Path × Output × OutputToken)) (hr : tokens env pr t start = .ok toks) :
+    resolveGo unescapeValue [] none (view toks) = expectedGo env none (evs toks) :=
+  C10_names_resolve_in_tokens xmlEscapers env pr t unescapeValue henv unescapeValue_serializeAttribute
+    start n inScope hat hs hu hdk hin hstart toks hr
+
+/-- Non-vacuity: `<p:a xmlns:p="u" p:x="1"><b/></p:a>` as a document (`a`, `x` in namespace `u`, `b` in
+    none), escaping functions = identity so that the run is closed under `decide`: the token texts,
+    and what the resolver answers on them (= the expected expanded names). -/
+example :
+    let env : Env := ⟨[[], Gen.xmlNs, ['u']], [[], ['x','m','l'], ['p']], [(['a'], 2), (['x'], 2), (['b'], 0)]⟩
+    let t : Tree := .node .document [.node (.element 0) [.node (.namespace 2 2) [],
+      .node (.attribute 1 ['1']) [], .node (.element 2) []]]
+    let esc : Escapers := ⟨fun s => s, fun _ s => s, fun s => s⟩
+    (match tokensWith esc env {} t [] with
+      | .ok toks => decide (
+          toks.map (fun x => x.2.2.text) =
+            [['<','p',':','a'], ['x','m','l','n','s',':','p','=','"','u','"'], ['p',':','x','=','"','1','"'], ['>'],
+             ['<','b'], ['/','>'], [], ['<','/','p',':','a','>']] ∧
+          resolveGo (fun s => s) [] none (view toks) =
+            [(false, some ['u'], ['a']), (true, some ['u'], ['x']), (false, some [], ['b']),
+             (false, some ['u'], ['a'])] ∧
+          expectedGo env none (evs toks) = resolveGo (fun s => s) [] none (view toks))
+      | _ => false) = true := by decide
+/-- The hypothesis on the interning tables holds for the tables of that example. -/
+example : EnvStrings ⟨[[], Gen.xmlNs, ['u']], [[], ['x','m','l'], ['p']], [(['a'], 2), (['x'], 2), (['b'], 0)]⟩ :=
+  ⟨by decide, rfl, rfl, rfl, rfl, by decide⟩
+
+end Resolve
 
 /-- Non-vacuity: `<a xmlns:p="2"><p:b/></a>`-like scope — name 0 = `b` in namespace 2, prefix 5
     bound to it two frames up, an unrelated frame in between. -/
